@@ -11,7 +11,7 @@ from framework import REPO, ROOT
 TIE = ["Nsq.Tie.Proto", "Nsq.Tie.ProtoBase10", "Nsq.Tie.ProtoFunc", "Nsq.Tie.ProtoIdentify"]
 PROPS = ["Nsq.Props.C09", "Nsq.Props.C09Identify"]
 TIE_AUDIT = ["Nsq.Tie.ProtoAudit"]          # audit round 7 (C09 only; props/C10.py uses TIE / HARNESS above)
-PROPS_AUDIT = ["Nsq.Props.C09Audit"]
+PROPS_AUDIT = ["Nsq.Props.C09Audit", "Nsq.Props.C09Batch"]
 HARNESS_AUDIT = ["e3/audit09_test.go"]
 HARNESS = ["e3/infra_test.go", "e3/proto_test.go", "e3/http_test.go", "e3/httpfull_test.go", "e3/identify_test.go"]
 NAME_RE = re.compile(rb"^[.a-zA-Z0-9_-]+(#ephemeral)?$")
@@ -539,14 +539,19 @@ def tree_checks_ticker_options():
     except OSError:
         return False
     m = re.search(r"def newTickerOptionChecks : List String := \[(.*?)\]", txt, re.S)
-    return bool(m) and "opts.OutputBufferTimeout <= 0" in m.group(1) and "opts.ClientTimeout/2 <= 0" in m.group(1)
+    if not m:
+        return False
+    if "opts.OutputBufferTimeout <= 0" in m.group(1) and "opts.ClientTimeout/2 <= 0" in m.group(1):
+        return True
+    return "attempted" if m.group(1).strip() else False      # some check of these options exists, not F31's
 
 
 def ticker_leg(ctx, binp, corr_broken):
     """B8: the two option values messagePump hands to time.NewTicker, each in a SUBPROCESS (the daemon may
     die). Model: Nsq.Model.ProtoEnv.firstConnection checked o (checked = the tree has F31's checks)."""
-    checked = tree_checks_ticker_options()
-    ctx.corr["tree_checks_ticker_options"] = checked
+    shape = tree_checks_ticker_options()
+    checked = shape is True
+    ctx.corr["tree_checks_ticker_options"] = shape
     cases = [("defaults", {}, "alive"),
              ("output-buffer-timeout=0", {"VERIF_OBT": "0"}, "bad"),
              ("output-buffer-timeout=-1s", {"VERIF_OBT": "-1000000000"}, "bad"),
@@ -570,8 +575,9 @@ def ticker_leg(ctx, binp, corr_broken):
                     "interval for NewTicker in protocolV2.messagePump, a goroutine nothing recovers)" % label)
             replay = "# subprocess: TestVerifE3TickerChild with %s\n# output tail:\n# %s\n" % (
                 env, "\n# ".join(out[-1200:].splitlines()))
-            if checked:
-                ctx.violation(KEY_TICKER + "-regressed", "nsqd.New has the option checks of F31 but " + what, replay)
+            if shape:
+                ctx.violation(KEY_TICKER + "-regressed", "nsqd.New checks these options (%s) but " % (
+                    "F31" if checked else "not the way F31 does") + what, replay)
             else:
                 ctx.violation(KEY_TICKER, what, replay)
         if got != want:
@@ -619,6 +625,8 @@ def audit_leg(ctx, binp, corr_broken):
     model = run_driver(ctx, binp, opsf, "audit")
     confs = parse_confs(ops)
     maxcc = {x.split()[1]: int(x.split()[2]) for x in ops if x.startswith("confx ")}
+    auth_on = {x.split()[1]: x.split()[3] == "1" for x in ops if x.startswith("confx ")}
+    granted = set()
     ndiff = 0
     for i, o in enumerate(ops):
         a = impl[i] if i < len(impl) else "<missing>"
@@ -632,6 +640,25 @@ def audit_leg(ctx, binp, corr_broken):
                     if ncl > maxcc[w[1]]:
                         ctx.violation("consumer-limit-exceeded", "channel %r/%r has %d consumers (max-channel-consumers %d)" % (
                             tn, cn, ncl, maxcc[w[1]]), "%s\n# impl: %s\n# model: %s\n" % (o, a, b))
+        if w[0] == "authd" and len(w) == 4 and w[3] != "-":
+            granted.update(w[3].split(","))
+        if w[0] == "iox":
+            # direct oracles (no model): (1) the four E_*_FAILED codes of publish / subscribe are documented fatal:
+            # such a frame is the last one and the connection is closed; (2) on a node with an auth server no
+            # topic outside every authorization the server ever granted holds a message or a consumer
+            fa = dict(x.split("=", 1) for x in a.split() if "=" in x)
+            rs = [] if fa.get("R", "-") == "-" else fa["R"].split(",")
+            for k, r in enumerate(rs):
+                if r in ("E_PUB_FAILED", "E_MPUB_FAILED", "E_DPUB_FAILED", "E_SUB_FAILED") and (
+                        k != len(rs) - 1 or fa.get("E") != "closed"):
+                    ctx.violation("fatal-code-not-closing", "%s was answered and the connection went on (%s)" % (r, a[:120]),
+                                  "%s\n# impl: %s\n# model: %s\n" % (o, a, b))
+            if auth_on.get(w[1]) and w[5] == "b":
+                for (tn, _p, cnt, ms, chans) in parse_broker(fa.get("B", "-")):
+                    if tn is not None and tn.hex() not in granted and (cnt > 0 or ms or any(c[2] > 0 for c in chans)):
+                        ctx.violation("unauthorized-effect", "topic %r holds messages / consumers although the auth server "
+                                      "never granted it (granted: %s)" % (tn, sorted(bytes.fromhex(g) for g in granted)),
+                                      "%s\n# impl: %s\n# model: %s\n" % (o, a, b))
         if w[0] in ("iox", "io"):
             ctx.count_case(o, nontrivial=("R=-" not in a))
             if i % 97 == 0 and len(o) < 300:
@@ -669,11 +696,12 @@ def run(ctx):
         "bufio.Reader.ReadSlice / io.ReadFull semantics as modelled (16 KiB buffer: a line of more than 16384 "
         "bytes including its newline is ErrBufferFull); regexp (names: byte-wise class automaton)",
         "Go memory model: one connection's IOLoop is sequential; connections interact only through the broker",
-        "TLS policy and AUTH are gate inputs of the model (C11); TLS/snappy/deflate upgrades end the modelled part",
+        "TLS policy and AUTH are gate inputs of the base model (C11); in Nsq.Model.ProtoEnv (audit round 7) the gate is connection state written by AUTH and the auth server a parameter, tied against a real auth server (node A); TTL expiry stays with C11; TLS/snappy/deflate upgrades end the modelled part",
     ]
     ctx.assumptions += [
         "writes to the client succeed (write errors are I/O faults: E_*_FAILED / send errors are outside the model)",
-        "no topic is exiting while a publish runs (E_PUB_FAILED/E_MPUB_FAILED/E_DPUB_FAILED are race-only)",
+        "base model (Props.C09): no backend write fails and no topic is exiting while a publish runs; a failing write IS an input of Nsq.Model.ProtoEnv (Props.C09Audit): mpub_all_or_nothing_partial needs `no failing write` (open finding mpub-partial-on-backend-fault), answers_independent_of_broker_partial needs --max-channel-consumers = 0",
+        "without fixes/F31: output-buffer-timeout > 0 and client-timeout >= 2ns (C09Audit.accepted_iff) — otherwise the first connection kills the daemon (open finding ticker-option-kills-daemon)",
         "dpub_exact: max-req-timeout below 2^63-1 ns; req_clamp: 0 <= max-req-timeout <= 2^63-1 ns",
         "F10 repaired (fixes/F10_mpub_body_limit.patch): mpub_total_le_body_limit is a full theorem of the patched tree",
     ]
